@@ -9,7 +9,11 @@ func runC14(c *Ctx) {
 	L := c.L
 	c.checkEntropyFilter("entropy-filter")
 	c.checkIupacPairTables("iupac-pair-tables")
-	c.checkSizeTests("size-test-after-insert", "align")
+	if c.Thorough() {
+		c.checkSizeTests("size-test-after-insert")
+	} else {
+		c.checkSizeTests("size-test-after-insert", "align")
+	}
 	L.Rule("site-domain", "on every path to a success return the site/row argument lies inside the alignment, and no in-range argument reaches an error return")
 	L.Rule("row-index-safe", "every index into a row buffer of the function is within bounds on every path")
 	L.Rule("alphabet-wildcard", "an alphabet-specific constant (ALL_AMINO/ALL_NUCLE, resolved through go/types) is used only where the controlling alphabet comparisons select its own alphabet")
